@@ -4,12 +4,19 @@ import PyrollModel.Gen.C20
 /-
   Config — executable model of `pyroll/core/config.py` (C20).  Import-free (core Lean only).
 
-  The model is an INTERPRETER of a description `Desc` of the source (branch order of `ConfigValue.parse`, the string
-  methods and literals of the bool tests, the `try/except` chain of the enum branch, separators / `strip` calls of
-  the mapping and iterable branches, the order of the sources in `__get__`, the format of `env_var`, whether the
-  unknown-name branch of `ConfigMeta.update` raises).  `Config.src` is that description filled with the GENERATED
-  constants of `PyrollModel/Gen/C20.lean`, which `driver/props/c20.py::translate` rewrites from the repository's
-  working tree on every run; the theorems of `PyrollProps/C20.lean` are about `src`.
+  The model is an INTERPRETER of a description `Desc` of the source: for every `if` branch of `ConfigValue.parse` the dispatch
+  class `self.type` is tested against, the KIND of test (`is` / `issubclass` / `isinstance` on the default) and what the branch
+  returns, in source order; the string methods and literals of the bool tests, the `try/except` chain of the enum branch,
+  separators / `strip` calls of the mapping and iterable branches; the order of the sources in `__get__` and the slot attribute
+  `__get__` / `__set__` / `__delete__` use; the assignments of `__init__` and `__set_name__`; the format of `env_var`; what
+  `ConfigMeta.to_dict` collects, whether the unknown-name branch of `ConfigMeta.update` raises and what `update` returns; the
+  name test of the `config` decorator.  `Config.src` is that description filled with the GENERATED constants of
+  `PyrollModel/Gen/C20.lean`, which `driver/props/c20.py::translate` rewrites from the repository's working tree on every run;
+  the theorems of `PyrollProps/C20.lean` are about `src`.
+
+  Value types form a LATTICE (`Ty`, `Ty.supers`, `Ty.exact`): a type may be a subclass of several dispatch classes (an enum
+  mixing in `str` is an `Enum`, a `str` and an `Iterable`; `bool` is an `int`; user-defined subclasses inherit the relations of
+  their base).  `parse` takes the first test of the source that holds for the type of the default.
 
   Every recursive function is one structural recursion on a list or on a `fuel : Nat`.
 -/
@@ -69,6 +76,7 @@ def applyOp : StrOp → Text → Text
   | .lower, t => t.map lowerC
   | .upper, t => t.map upperC
   | .strip, t => strip t
+  | .replace a b, t => t.map (fun c => if c = a then b else c)
 
 /-- `t.op1().op2()…` (application order) -/
 def applyOps : List StrOp → Text → Text
@@ -151,47 +159,100 @@ inductive V where
   | dict (kvs : List (Text × Text))        -- insertion order
   | sym (ctor : Nat) (t : Text)            -- `T(t)` for a constructor `T` the model does not interpret (float, …)
   | obj (id : Nat)                         -- any other object (only ever assigned explicitly / used as default)
+  | inst (k : Nat) (v : V)                 -- an instance of the user-defined class #k (`class MyList(list)`) with base value `v`
+  | desc (c : Nat) (n : Text)              -- the `ConfigValue` descriptor object of value `n` of class `c`
   deriving DecidableEq, Repr
 
-/-- the type of a default value, as far as `ConfigValue.parse` looks at it -/
+/-- the data type mixed into an enum class -/
+inductive Mix where
+  | plain                    -- `class E(Enum)`
+  | str                      -- `class E(str, Enum)` / `enum.StrEnum`: the members are `str` instances (values are texts)
+  | int                      -- `enum.IntEnum` / `class E(int, Enum)`: the members are `int` instances
+  | flag (cls : Nat)         -- `enum.IntFlag` #cls: members are `int` instances; `E(n)` for a number that is no member's
+                             -- value is CPython's business (combination of flags): left symbolic
+  deriving DecidableEq, Repr
+
+/-- can `E(int(s))` find a member (the members carry integer values) -/
+def Mix.byNumber : Mix → Bool
+  | .str => false
+  | _ => true
+
+/-- the type of a default value: the TYPE LATTICE `ConfigValue.parse` dispatches on.  A type is related to the dispatch
+classes (`Branch`) by `supers` (every dispatch class it is a subclass of - possibly several) and `exact` (the dispatch
+class it IS). -/
 inductive Ty where
-  | bool | path | str | int
-  | enum (members : List (Text × Int))      -- `(name, value)` of `__members__` (aliases included), int-valued
+  | bool | path | str | int                 -- `bool`, `PosixPath` (what every `Path(…)` object is), `str`, `int`
+  | enum (mix : Mix) (members : List (Text × Int))    -- `(name, id)` of `__members__` (aliases included); id = the value
+                                                      -- for integer-valued enums, a serial number for `Mix.str`
   | dict | list | tuple
   | other (ctor : Nat)                     -- anything else: `self.type(s)` is left symbolic (0 = float, 1 = NoneType, …)
+  | sub (k : Nat) (base : Ty)              -- the user-defined subclass #k of `base` (`class MyList(list): pass`)
+  | ntuple (k : Nat)                       -- the `NamedTuple` class #k (≥ 2 fields): a `tuple` whose constructor wants the fields
   deriving DecidableEq, Repr
 
-/-- which `if` tests of `ConfigValue.parse` hold for a value of this type (`hasParser`: a custom parser is set) -/
-def Ty.passes (ty : Ty) (hasParser : Bool) : Branch → Bool
-  | .custom => hasParser
-  | .bool => ty == .bool
-  | .path => ty == .path
-  | .str => ty == .str
-  | .enum => match ty with | .enum _ => true | _ => false
-  | .mapping => ty == .dict
-  | .iterable => match ty with
-    | .str | .dict | .list | .tuple => true         -- `str`, `dict`, `list`, `tuple` all define `__iter__`
-    | _ => false
+/-- every dispatch class the type is a subclass of (`issubclass(self.type, T)` / `isinstance(self.default, T)`) -/
+def Ty.supers : Ty → List Branch
+  | .bool => [.bool, .int]
+  | .path => [.path]
+  | .str => [.str, .iterable]
+  | .int => [.int]
+  | .enum .plain _ => [.enum]
+  | .enum .str _ => [.enum, .str, .iterable]
+  | .enum .int _ => [.enum, .int]
+  | .enum (.flag _) _ => [.enum, .int, .iterable]      -- a flag value iterates over its single flags
+  | .dict => [.mapping, .iterable]
+  | .list => [.iterable]
+  | .tuple => [.iterable]
+  | .ntuple _ => [.iterable]
+  | .other _ => []
+  | .sub _ b => b.supers
 
-/-- one declared configuration value (a `ConfigValue` descriptor after `__set_name__`) -/
+/-- the dispatch class the type IS (`self.type is T`); `Path` itself is never the type of an object -/
+def Ty.exact : Ty → Option Branch
+  | .bool => some .bool
+  | .str => some .str
+  | .int => some .int
+  | _ => none
+
+/-- the built-in type at the root of a chain of user-defined subclasses -/
+def Ty.root : Ty → Ty
+  | .sub _ b => b.root
+  | t => t
+
+/-- an object made by the constructor of the type: instances of user-defined classes carry their class -/
+def Ty.wrap : Ty → V → V
+  | .sub k _, v => .inst k v
+  | .ntuple k, v => .inst k v
+  | _, v => v
+
+/-- does the `if` test `(b, kind)` of `ConfigValue.parse` hold for a value of this type (`hasParser`: a custom parser is set) -/
+def Ty.passes (ty : Ty) (hasParser : Bool) : Branch × TestKind → Bool
+  | (.custom, _) => hasParser
+  | (_, .truthy) => false
+  | (b, .identity) => ty.exact == some b
+  | (b, .subclass) => ty.supers.contains b
+  | (b, .instance) => ty.supers.contains b
+
+/-- one declared configuration value (a `ConfigValue` descriptor after `__init__` and `__set_name__`) -/
 structure CV where
   cls : Nat                  -- the config class it belongs to
   name : Text
   default : V
-  ty : Ty
+  ty : Ty                    -- `self.type`
   parser : Option Nat        -- index of the custom parser
-  envOverride : Text         -- `env_var=` ([] = not given / falsy)
-  envPrefix : Text           -- `env_var_prefix=` ([] = not given / falsy: derived from the owner's module)
+  envOverride : Text         -- `self._env_var` ([] = not given / falsy)
+  envPrefix : Text           -- `self._env_var_prefix` after `__set_name__`
   module : Text              -- `owner.__module__`
   deriving Repr
 
+/-- a slot of the explicit values: (config class, ATTRIBUTE name - the value's name behind the slot prefix) -/
 abbrev Key := Nat × Text
 /-- custom parsers: index ↦ function -/
 abbrev Parsers := Nat → Text → Except Err V
 
 /-- description of the source (see the header); `src` below is the generated instance -/
 structure Desc where
-  parseOrder : List Branch
+  parseTests : List Test
   boolTests : List (List StrOp × Text × Bool)
   boolElse : Err
   enumLookups : List EnumLookup
@@ -202,16 +263,25 @@ structure Desc where
   listSep : Char
   listItemNorm : List StrOp
   getOrder : List Source
+  getSlot : Text                     -- `__get__` reads the attribute `getSlot + name` of the class …
+  setSlot : Text                     -- … `__set__` writes `setSlot + name` …
+  delSlot : Text                     -- … `__delete__` removes `delSlot + name`
+  initStores : List (CVAttr × InitSrc)       -- the assignments of `__init__`
+  setNameStores : List (CVAttr × InitSrc)    -- the assignments of `__set_name__`
+  prefixFallback : Bool              -- `__set_name__`: a falsy prefix is replaced by the owner's module path, normalised by
+  modulePrefixNorm : List StrOp
   envSep : Text
   envNameNorm : List StrOp
+  toDictYield : DictYield            -- what `to_dict` stores under a name
   updateRaises : Bool
   updateErr : Err
+  updateReturnsToDict : Bool
   nameTests : List NameTest          -- `config` decorator: the conjuncts deciding which attributes become config values
   wrappedKeeps : List CVField        -- … and what it carries over from an attribute given as `ConfigValue(...)`
 
 /-- the description generated from the repository's working tree -/
 def src : Desc where
-  parseOrder := Gen.C20.parseOrder
+  parseTests := Gen.C20.parseTests
   boolTests := Gen.C20.boolTests
   boolElse := Gen.C20.boolElse
   enumLookups := Gen.C20.enumLookups
@@ -222,21 +292,72 @@ def src : Desc where
   listSep := Gen.C20.listSep
   listItemNorm := Gen.C20.listItemNorm
   getOrder := Gen.C20.getOrder
+  getSlot := Gen.C20.getSlot
+  setSlot := Gen.C20.setSlot
+  delSlot := Gen.C20.delSlot
+  initStores := Gen.C20.initStores
+  setNameStores := Gen.C20.setNameStores
+  prefixFallback := Gen.C20.prefixFallback
+  modulePrefixNorm := Gen.C20.modulePrefixNorm
   envSep := Gen.C20.envSep
   envNameNorm := Gen.C20.envNameNorm
+  toDictYield := Gen.C20.toDictYield
   updateRaises := Gen.C20.updateRaises
   updateErr := Gen.C20.updateErr
+  updateReturnsToDict := Gen.C20.updateReturnsToDict
   nameTests := Gen.C20.nameTests
   wrappedKeeps := Gen.C20.wrappedKeeps
 
-/-! ### `ConfigValue.env_var` -/
+/-! ### `ConfigValue.__init__`, `__set_name__`, `env_var` -/
+
+/-- the arguments of `ConfigValue(default, env_var=…, env_var_prefix=…, parser=…)`; `ty` is python's `type(default)` -/
+structure InitArgs where
+  default : V
+  ty : Ty
+  envVar : Text              -- [] = not given (`None`) or empty
+  envPrefix : Text           -- ditto
+  parser : Option Nat
+  deriving Repr
+
+/-- a `ConfigValue` object after `__init__`: an attribute the constructor does not assign stays at the neutral value -/
+structure Raw where
+  default : V
+  ty : Ty
+  parser : Option Nat
+  envVar : Text
+  envPrefix : Text
+  deriving Repr
+
+/-- `ConfigValue.__init__`: every attribute gets what the source assigns to it -/
+def init (d : Desc) (a : InitArgs) : Raw where
+  default := if d.initStores.contains (.default, .argDefault) then a.default else .none
+  ty := if d.initStores.contains (.type, .typeOfDefault) then a.ty else .other 1
+  parser := if d.initStores.contains (.parser, .argParser) then a.parser else none
+  envVar := if d.initStores.contains (.envVar, .argEnvVar) then a.envVar else []
+  envPrefix := if d.initStores.contains (.envPrefix, .argEnvPrefix) then a.envPrefix else []
 
 /-- `owner.__module__.upper().replace(".", "_")` -/
 def modulePrefix (m : Text) : Text := (m.map upperC).map (fun c => if c = '.' then '_' else c)
 
+/-- `ConfigValue.__set_name__(owner, name)`, `owner` = config class `c` defined in module `m`: remembers owner and name and
+replaces a falsy prefix by the normalised module path of the owner -/
+def setName (d : Desc) (r : Raw) (c : Nat) (n m : Text) : CV where
+  cls := if d.setNameStores.contains (.owner, .argOwner) then c else 0
+  name := if d.setNameStores.contains (.name, .argName) then n else []
+  default := r.default
+  ty := r.ty
+  parser := r.parser
+  envOverride := r.envVar
+  envPrefix := if r.envPrefix ≠ [] then r.envPrefix else if d.prefixFallback then applyOps d.modulePrefixNorm m else []
+  module := m
+
+/-- a descriptor as it stands in the metaclass: `NAME = ConfigValue(…)` in the body of a class created in module `m` -/
+def declare (d : Desc) (a : InitArgs) (c : Nat) (n m : Text) : CV := setName d (init d a) c n m
+
+/-- `ConfigValue.env_var` -/
 def envName (d : Desc) (cv : CV) : Text :=
   if cv.envOverride ≠ [] then cv.envOverride
-  else (if cv.envPrefix ≠ [] then cv.envPrefix else modulePrefix cv.module) ++ d.envSep ++ applyOps d.envNameNorm cv.name
+  else cv.envPrefix ++ d.envSep ++ applyOps d.envNameNorm cv.name
 
 /-! ### the `config` decorator: which attributes of the decorated class become configuration values -/
 
@@ -257,11 +378,12 @@ structure Attr where
   deriving Repr
 
 /-- what the decorator `config(pre)` makes of one attribute of class `c` (metaclass created in module `m`):
-a descriptor when the name passes the test, nothing (the attribute stays a plain class attribute) otherwise -/
+`ConfigValue(default=…, env_var_prefix=pre, …)` placed in the metaclass when the name passes the test, nothing (the
+attribute stays a plain class attribute) otherwise -/
 def decorate1 (d : Desc) (c : Nat) (pre m : Text) (a : Attr) : Option CV :=
   if isConfigName d a.name then
-    some ⟨c, a.name, a.default, a.ty, if d.wrappedKeeps.contains .parser then a.parser else none,
-      if d.wrappedKeeps.contains .envVar then a.envOverride else [], pre, m⟩
+    some (declare d ⟨a.default, a.ty, if d.wrappedKeeps.contains .envVar then a.envOverride else [], pre,
+      if d.wrappedKeeps.contains .parser then a.parser else none⟩ c a.name m)
   else none
 
 /-- the declarations the decorator creates for the body `attrs` -/
@@ -281,21 +403,28 @@ def hasValue (v : Int) : List (Text × Int) → Bool
   | [] => false
   | (_, w) :: rest => w == v || hasValue v rest
 
+/-- symbolic constructor index of `E(n)` for the `IntFlag` class #k and a number that is no member's value -/
+def flagCtor (k : Nat) : Nat := 100 + k
+
 /-- one attempt of the enum branch -/
-def enumAttempt (ms : List (Text × Int)) (t : Text) : EnumLookup → Except Err V
+def enumAttempt (mix : Mix) (ms : List (Text × Int)) (t : Text) : EnumLookup → Except Err V
   | .byNumber => match pyInt t with
-    | some n => if hasValue n ms then .ok (.enum n) else .error .valueError
+    | some n =>
+      if mix.byNumber && hasValue n ms then .ok (.enum n)
+      else match mix with
+        | .flag k => .ok (.sym (flagCtor k) t)
+        | _ => .error .valueError
     | none => .error .valueError
   | .byName ops => match memberByName (applyOps ops t) ms with
     | some v => .ok (.enum v)
     | none => .error .keyError
 
 /-- `try: a₁ except: try: a₂ except: … aₙ` — the error of the last attempt propagates -/
-def enumChain (ms : List (Text × Int)) (t : Text) : List EnumLookup → Except Err V
+def enumChain (mix : Mix) (ms : List (Text × Int)) (t : Text) : List EnumLookup → Except Err V
   | [] => .error .other
-  | a :: rest => match enumAttempt ms t a with
+  | a :: rest => match enumAttempt mix ms t a with
     | .ok v => .ok v
-    | .error e => if rest.isEmpty then .error e else enumChain ms t rest
+    | .error e => if rest.isEmpty then .error e else enumChain mix ms t rest
 
 /-- `dict.__setitem__` on an insertion-ordered association list -/
 def dictSet (k v : Text) : List (Text × Text) → List (Text × Text)
@@ -308,8 +437,8 @@ def dictOf (acc : List (Text × Text)) : List (List Text) → Except Err V
   | [k, v] :: rest => dictOf (dictSet k v acc) rest
   | _ :: _ => .error .valueError
 
-/-- `self.type(s)` -/
-def construct (ty : Ty) (t : Text) : Except Err V :=
+/-- `T(s)` for a built-in type `T` and a text -/
+def constructRoot (ty : Ty) (t : Text) : Except Err V :=
   match ty with
   | .int => match pyInt t with | some n => .ok (.int n) | none => .error .valueError
   | .other c => .ok (.sym c t)
@@ -319,44 +448,78 @@ def construct (ty : Ty) (t : Text) : Except Err V :=
   | .list => .ok (.list (t.map fun c => [c]))
   | .tuple => .ok (.tuple (t.map fun c => [c]))
   | .dict => if t = [] then .ok (.dict []) else .error .valueError
-  | .enum _ => .error .valueError
+  | .enum _ _ => .error .valueError
+  | .ntuple _ => .error .typeError             -- the fields are missing
+  | .sub _ _ => .error .other                  -- not a root
 
-def runBranch (d : Desc) (P : Parsers) (cv : CV) (t : Text) : Branch → Except Err V
-  | .custom => match cv.parser with | some i => P i t | none => .error .other
-  | .bool => parseBool d.boolElse t d.boolTests
-  | .path => .ok (.path t)
-  | .str => .ok (.str t)
-  | .enum => match cv.ty with
-    | .enum ms => enumChain ms t d.enumLookups
+/-- `self.type(s)`: the constructor of the built-in root, the object belongs to the (possibly user-defined) class itself -/
+def construct (ty : Ty) (t : Text) : Except Err V := (constructRoot ty.root t).map ty.wrap
+
+/-- the text the repr of a generator object stands for in the model (it holds an address: `V.sym garbageCtor []`) -/
+def garbageCtor : Nat := 2
+
+/-- `T(<generator of the texts items>)` for a built-in type `T` -/
+def itemsRoot (ty : Ty) (items : List Text) : Except Err V :=
+  match ty with
+  | .list => .ok (.list items)
+  | .tuple => .ok (.tuple items)
+  | .str => .ok (.sym garbageCtor [])          -- `str(<generator>)` is the repr of the generator object
+  | .ntuple _ => .error .typeError             -- one argument where the fields are wanted
+  | .enum _ _ => .error .valueError            -- no member has a generator as value
+  | .dict => .error .valueError                -- `dict(<texts>)` (texts of length 2 aside)
+  | _ => .error .typeError
+
+def runBranch (d : Desc) (P : Parsers) (cv : CV) (t : Text) (b : Test) : Except Err V :=
+  match b.body with
+  | .text => .ok (.str t)                                              -- `return s`
+  | .selfType => construct cv.ty t                                     -- `return self.type(s)`
+  | .named => match b.cls with                                         -- `return T(s)`
+    | .path => .ok (.path t)
+    | .str => .ok (.str t)
+    | .int => constructRoot .int t
     | _ => .error .other
-  | .mapping =>
-    dictOf [] ((split d.mapSep t).map fun p => (split d.mapKvSep (applyOps d.mapPairNorm p)).map (applyOps d.mapPartNorm))
-  | .iterable =>
-    let items := (split d.listSep t).map (applyOps d.listItemNorm)
-    match cv.ty with
-    | .list => .ok (.list items)
-    | .tuple => .ok (.tuple items)
-    | _ => .error .other                      -- not reached with the source order (str / dict / enum come first)
+  | .std => match b.cls with
+    | .custom => match cv.parser with | some i => P i t | none => .error .other
+    | .bool => parseBool d.boolElse t d.boolTests
+    | .enum => match cv.ty with
+      | .enum mix ms => enumChain mix ms t d.enumLookups
+      | _ => .error .other
+    | .mapping =>
+      match cv.ty.root with
+      | .dict => (dictOf [] ((split d.mapSep t).map fun p =>
+          (split d.mapKvSep (applyOps d.mapPairNorm p)).map (applyOps d.mapPartNorm))).map cv.ty.wrap
+      | _ => .error .other
+    | .iterable => (itemsRoot cv.ty.root ((split d.listSep t).map (applyOps d.listItemNorm))).map cv.ty.wrap
+    | _ => .error .other
 
 /-- the `if` cascade of `parse`: first test that holds decides; otherwise `self.type(s)` -/
-def parseBranches (d : Desc) (P : Parsers) (cv : CV) (t : Text) : List Branch → Except Err V
+def parseBranches (d : Desc) (P : Parsers) (cv : CV) (t : Text) : List Test → Except Err V
   | [] => construct cv.ty t
-  | b :: rest => if cv.ty.passes cv.parser.isSome b then runBranch d P cv t b else parseBranches d P cv t rest
+  | b :: rest =>
+    if cv.ty.passes cv.parser.isSome (b.cls, b.kind) then runBranch d P cv t b else parseBranches d P cv t rest
 
-def parse (d : Desc) (P : Parsers) (cv : CV) (t : Text) : Except Err V := parseBranches d P cv t d.parseOrder
+def parse (d : Desc) (P : Parsers) (cv : CV) (t : Text) : Except Err V := parseBranches d P cv t d.parseTests
+
+/-- the branch `parse` takes for a value of type `ty` without custom parser (`none` = falls through to `self.type(s)`) -/
+def selectedTest (ty : Ty) : List Test → Option Test
+  | [] => none
+  | b :: rest => if ty.passes false (b.cls, b.kind) then some b else selectedTest ty rest
 
 /-! ### state, `__get__`, operations -/
 
 structure State where
-  explicit : Key → Option V         -- the underscore slot of the class (`none` = attribute absent)
+  explicit : Key → Option V         -- the attributes of the config classes holding explicit values (`none` = attribute absent)
   env : Text → Option Text          -- `os.environ`
 
 def State.init : State := ⟨fun _ => none, fun _ => none⟩
 
+/-- the slot `__get__` reads for value `n` of class `c` -/
+def slotKey (d : Desc) (c : Nat) (n : Text) : Key := (c, d.getSlot ++ n)
+
 /-- `ConfigValue.__get__`: the sources in order, each used when it is `not None` -/
 def getFrom (d : Desc) (P : Parsers) (cv : CV) (s : State) : List Source → Except Err V
   | [] => .ok .none
-  | .explicit :: rest => match s.explicit (cv.cls, cv.name) with
+  | .explicit :: rest => match s.explicit (slotKey d cv.cls cv.name) with
     | some v => if v ≠ .none then .ok v else getFrom d P cv s rest
     | none => getFrom d P cv s rest
   | .env :: rest => match s.env (envName d cv) with
@@ -389,24 +552,45 @@ def setKey (f : Key → Option V) (k : Key) (v : Option V) : Key → Option V :=
 def setVar (f : Text → Option Text) (x : Text) (v : Option Text) : Text → Option Text :=
   fun x' => if x' = x then v else f x'
 
-/-- the loop of `ConfigMeta.update` -/
+/-- `ConfigValue.__set__`: `setattr(instance, setSlot + name, value)` -/
+def cvSet (d : Desc) (e : Key → Option V) (c : Nat) (n : Text) (v : V) : Key → Option V :=
+  setKey e (c, d.setSlot ++ n) (some v)
+
+/-- `ConfigValue.__delete__`: `delattr(instance, delSlot + name)` (`AttributeError` when the attribute is absent) -/
+def cvDelete (d : Desc) (e : Key → Option V) (c : Nat) (n : Text) : (Key → Option V) × Out :=
+  match e (c, d.delSlot ++ n) with
+  | some _ => (setKey e (c, d.delSlot ++ n) none, .ok)
+  | none => (e, .err .attributeError)
+
+/-- the loop of `ConfigMeta.update` (`setattr(cls, n, v)` runs the descriptor's `__set__`) -/
 def updateLoop (d : Desc) (D : List CV) (c : Nat) : List (Text × V) → (Key → Option V) → (Key → Option V) × Out
   | [], e => (e, .ok)
   | (n, v) :: rest, e =>
-    if known D c n then updateLoop d D c rest (setKey e (c, n) (some v))
+    if known D c n then updateLoop d D c rest (cvSet d e c n v)
     else if d.updateRaises then (e, .err d.updateErr)
     else updateLoop d D c rest e
 
 def step (d : Desc) (D : List CV) (s : State) : Op → State × Out
-  | .assign c n v => if known D c n then ({ s with explicit := setKey s.explicit (c, n) (some v) }, .ok) else (s, .ok)
-  | .delete c n => match s.explicit (c, n) with
-    | some _ => ({ s with explicit := setKey s.explicit (c, n) none }, .ok)
-    | none => (s, .err .attributeError)
+  | .assign c n v => if known D c n then ({ s with explicit := cvSet d s.explicit c n v }, .ok) else (s, .ok)
+  | .delete c n => let (e, o) := cvDelete d s.explicit c n; ({ s with explicit := e }, o)
   | .setenv x t => ({ s with env := setVar s.env x (some t) }, .ok)
   | .unsetenv x => ({ s with env := setVar s.env x none }, .ok)
   | .update c upd => let (e, o) := updateLoop d D c upd s.explicit; ({ s with explicit := e }, o)
 
 /-- a history, from a given state -/
 def run (d : Desc) (D : List CV) (s : State) (h : List Op) : State := h.foldl (fun s op => (step d D s op).1) s
+
+/-! ### `ConfigMeta.to_dict` and what `update` returns -/
+
+/-- `{n: v for n, v in type(cls).__dict__.items() if isinstance(v, ConfigValue)}`: the declared values of class `c` in
+declaration order, each name with its DESCRIPTOR object (not with the value it resolves to) -/
+def toDict (d : Desc) (D : List CV) (c : Nat) : List (Text × V) :=
+  (D.filter (fun cv => cv.cls == c)).map fun cv => (cv.name, match d.toDictYield with | .descriptor => .desc c cv.name)
+
+/-- what `C.update(upd)` returns / raises -/
+def updateResult (d : Desc) (D : List CV) (s : State) (c : Nat) (upd : List (Text × V)) : Except Err (Option (List (Text × V))) :=
+  match (updateLoop d D c upd s.explicit).2 with
+  | .ok => .ok (if d.updateReturnsToDict then some (toDict d D c) else none)
+  | .err e => .error e
 
 end Config
